@@ -19,6 +19,7 @@ from ..common import (Report, cbool, clist, cobs, cstr, decide, load_findings, r
                       standard_proof_part, write_replay)
 
 PROP = "C13"
+G_DEFAULT_DIGITS = 2          # pddl_precondition.DEFAULT_DECIMAL_DIGITS: what str(precondition) uses; re-read from the library on every run
 CORPUS_DIR = Path(__file__).resolve().parents[2] / "corpus" / PROP
 STRIP = set("()-? \t\n\r\x0b\x0c")
 
@@ -54,10 +55,13 @@ def cpoint(p):
     return clist(["(%s, %s)" % (cstr(k), cq(v)) for k, v in p])
 
 
+LIT_ENTRY = {"str": "print"}       # str(precondition) is Precondition.print with the default decimals
+
+
 def e2e_lit(job, res, points):
     outs = res.get("ok")
     return "(CE2E %s %d %s %s %s %s %s %s)" % (
-        cstr(job["entry"]), job["digits"], clist([cstr(c) for c in job["conds"]]),
+        cstr(LIT_ENTRY.get(job["entry"], job["entry"])), job["digits"], clist([cstr(c) for c in job["conds"]]),
         clist([cstr(c) for c in job.get("assumptions", [])]),
         cobs(outs, render=lambda l: clist([cstr(x) for x in l])), cbool(res.get("reader_ok", False)),
         clist([cpoint(p) for p in points]), clist([cstr(h) for h in res.get("hints", [])]))
@@ -124,19 +128,11 @@ def collides(fluents):
 
 # ------------------------------------------------------------------ inputs
 def small_point(rng, fluents, conds):
-    rho = {f: Fraction(rng.randint(-6, 6), rng.choice([1, 1, 2, 2, 3])) for f in fluents}
-    # make the linear equalities (= (+ A B) R) hold where A's fluent can be solved for
-    for c in conds:
-        if c[0] == "=" and c[1][0] == "+":
-            a, b, r = c[1][1], c[1][2], c[2]
-            try:
-                if a[0] == "fl" and a[1] not in G.fluents_of(b) + G.fluents_of(r):
-                    rho[a[1]] = G.ev(r, rho) - G.ev(b, rho)
-                elif a[0] == "*" and a[1][0] == "fl" and a[2][0] == "num" and Fraction(a[2][1]) != 0 \
-                        and a[1][1] not in G.fluents_of(b) + G.fluents_of(r):
-                    rho[a[1][1]] = (G.ev(r, rho) - G.ev(b, rho)) / Fraction(a[2][1])
-            except ZeroDivisionError:
-                pass
+    """a small rational point on the solution set of the linear equalities among conds (exact solve); a random small point
+    when the equalities have no common solution"""
+    rho = G.solve_point(rng, fluents, [c for c in conds if c[0] == "="])
+    if rho is None:
+        rho = {f: Fraction(rng.randint(-6, 6), rng.choice([1, 1, 2, 2, 3])) for f in fluents}
     return sorted(rho.items())
 
 
@@ -151,6 +147,102 @@ def well_defined(rng, trees, fluents):
         except ZeroDivisionError:
             continue
     return False
+
+
+def defined_somewhere(rng, trees, fluents, equalities, points):
+    cands = [dict(p) for p in points] + [dict(small_point(rng, fluents, equalities)) for _ in range(4)]
+    for rho in cands:
+        try:
+            for t in trees:
+                G.ev(t, rho)
+            return True
+        except ZeroDivisionError:
+            continue
+    return False
+
+
+def chain_equalities(rng, vocab):
+    """two linear equalities  a + (k b) = r1,  b + (k' c) = r2  in either order: eliminating a brings b in, which the other
+    equality eliminates"""
+    a, b, c = rng.sample(vocab, 3)
+    kb = G.num(G.coef(rng, rng.choice(["int", "dec"])))
+    kc = G.num(G.coef(rng, rng.choice(["int", "dec"])))
+    e1 = ("=", ("+", ("fl", a), ("*", ("fl", b), kb)), G.num(G.coef(rng, "int")))
+    e2 = ("=", ("+", ("fl", b), ("*", ("fl", c), kc)), G.num(G.coef(rng, "int")) if rng.random() < 0.7 else G.term(rng, [c], 1, "int"))
+    return [e1, e2] if rng.random() < 0.5 else [e2, e1]
+
+
+def or_group(rng, vocab):
+    conds, kind = [], "plain"
+    if rng.random() < 0.6:
+        conds.append(G.linear_equality(rng, vocab))
+        kind = "with-equality"
+    for _ in range(rng.randint(1, 3)):
+        if conds and conds[0][0] == "=" and rng.random() < 0.5:
+            # a condition over the very sum the equality fixes (what a conjunction would eliminate or omit)
+            left = conds[0][1] if rng.random() < 0.5 else ("*", conds[0][1], G.term(rng, vocab, 1))
+            conds.append((rng.choice(G.CMPS[:4]), left, G.rhs(rng, vocab, "int" if rng.random() < 0.5 else None)))
+        else:
+            e, _k = G.expression(rng, vocab, allow_div=False)
+            conds.append((rng.choice(G.CMPS[:4]), e, G.rhs(rng, vocab)))
+    if rng.random() < 0.08:
+        t = G.poly(rng, vocab, 1, 2)
+        conds.append(("=", t, t))            # a disjunct that always holds: it must be kept
+        kind += "+identity"
+    rng.shuffle(conds)
+    return conds, kind
+
+
+def group_points(rng, tier, conds, as_or):
+    fl = []
+    for c in conds:
+        G.fluents_of(("+", c[1], c[2]), fl)
+    npts = 3 if tier == "quick" else 4
+    return fl, [small_point(rng, fl, [] if as_or else conds) for _ in range(npts)]
+
+
+def make_nested(rng, kind_counts, tier, vocab, d):
+    """a compound precondition: conjunction at the top (0-2 equalities + inequalities), a nested disjunction, a universally
+    quantified conjunction or disjunction; printed by CompoundPrecondition.print or str()"""
+    top = [G.linear_equality(rng, vocab) for _ in range(rng.choice([0, 1, 1, 2]))]
+    for _ in range(rng.randint(1, 2)):
+        e, _k = G.expression(rng, vocab, allow_div=False)
+        top.append((rng.choice(G.CMPS[:4]), e, G.rhs(rng, vocab)))
+    rng.shuffle(top)
+    groups = {"top": top, "or": [], "forall": []}
+    if rng.random() < 0.8:
+        groups["or"] = or_group(rng, vocab)[0]
+    fa_head = rng.choice(["and", "and", "or"])
+    if rng.random() < 0.6 or not groups["or"]:
+        qvocab = vocab + ["(q-level ?q)"]
+        if fa_head == "or":
+            groups["forall"] = or_group(rng, qvocab)[0]
+        else:
+            fa = [G.linear_equality(rng, qvocab) for _ in range(rng.choice([0, 1]))]
+            for _ in range(rng.randint(1, 2)):
+                e, _k = G.expression(rng, qvocab, allow_div=False)
+                fa.append((rng.choice(G.CMPS[:4]), e, G.rhs(rng, qvocab)))
+            groups["forall"] = fa
+    via = "str" if rng.random() < 0.3 else "print"
+    if via == "str":
+        d = G_DEFAULT_DIGITS
+    gpoints = {}
+    for name, conds in groups.items():
+        if not conds:
+            continue
+        as_or = name == "or" or (name == "forall" and fa_head == "or")
+        fl, pts = group_points(rng, tier, conds, as_or)
+        trees = [x for c in conds for x in (c[1], c[2])]
+        if not fl or any(not G.fluents_of(("+", c[1], c[2])) for c in conds):
+            return None
+        if not defined_somewhere(rng, trees, fl, [] if as_or else conds, pts):
+            return None
+        gpoints[name] = [[[k, str(v)] for k, v in p] for p in pts]
+    job = {"op": "c13.run", "entry": "nested", "digits": d, "via": via, "forall_head": fa_head,
+           "groups": {k: [G.show(c) for c in v] for k, v in groups.items()}, "conds": [], "assumptions": []}
+    kind = "nested/%s%s%s/%s" % ("top", "+or" if groups["or"] else "", "+forall-" + fa_head if groups["forall"] else "", via)
+    kind_counts[("nested", kind.split("/", 1)[1])] = kind_counts.get(("nested", kind.split("/", 1)[1]), 0) + 1
+    return {"job": job, "points": [], "group_points": gpoints, "kind": kind, "nontrivial": True, "fluents": None}
 
 
 def exactly_printable(t, d):
@@ -173,8 +265,13 @@ def nontrivial_tree(t):
 def make_job(rng, kind_counts, tier):
     vocab_all = rng.choice(G.VOCABS)
     vocab = rng.sample(vocab_all, rng.randint(1, 4))
-    d = rng.randint(0, 6)
-    entry = rng.choice(["expr", "ineq", "ineq", "eq", "tree", "pre", "pre", "print"])
+    # digits 0..6; 0 and 1 - where many constants round to zero or to an integer - a third of the time
+    d = rng.choice([0, 1]) if rng.random() < 0.33 else rng.randint(0, 6)
+    entry = rng.choice(["expr", "ineq", "ineq", "eq", "tree", "pre", "pre", "print", "or", "str", "nested"])
+    if entry == "nested":
+        return make_nested(rng, kind_counts, tier, vocab, d)
+    if entry == "str":
+        d = G_DEFAULT_DIGITS
     assumptions = []
     if entry == "expr":
         e, kind = G.expression(rng, vocab)
@@ -194,8 +291,13 @@ def make_job(rng, kind_counts, tier):
             kind = "cancelling"
         if entry == "ineq" and kind != "rational" and rng.random() < 0.4 and len(vocab) >= 2:
             # explicit assumptions, the interface of simplify_inequality:  A = R - B
-            for _ in range(rng.randint(1, 2)):
-                le = G.linear_equality(rng, vocab)
+            if len(vocab) >= 3 and rng.random() < 0.35:
+                # a chain: the second assumption eliminates a function that the first one introduces (either order)
+                les = chain_equalities(rng, vocab)
+                kind += "+chain"
+            else:
+                les = [G.linear_equality(rng, vocab) for _ in range(rng.randint(1, 2))]
+            for le in les:
                 assumptions.append(("=", le[1][1], ("-", le[2], le[1][2])))
             kind += "+assumptions"
     elif entry == "eq":
@@ -210,10 +312,17 @@ def make_job(rng, kind_counts, tier):
         elif rng.random() < 0.08:
             conds = [G.decimal_identity(rng, vocab)]
             kind = "decimal-identity"
+    elif entry == "or":
+        # the numeric conditions of a disjunction: often with a linear equality (which must NOT be used for elimination)
+        conds, kind = or_group(rng, vocab)
     else:
         n_eq = rng.choice([0, 1, 1, 2])
         kind = "%d-equalities" % n_eq
-        conds = [G.linear_equality(rng, vocab) for _ in range(n_eq)]
+        if n_eq == 2 and len(vocab) >= 3 and rng.random() < 0.4:
+            conds = chain_equalities(rng, vocab)
+            kind += "+chain"
+        else:
+            conds = [G.linear_equality(rng, vocab) for _ in range(n_eq)]
         for _ in range(rng.randint(1, 3)):
             e, _k = G.expression(rng, vocab, allow_div=rng.random() < 0.15)
             conds.append((rng.choice(G.CMPS[:4]), e, G.rhs(rng, vocab)))
@@ -263,18 +372,13 @@ def make_job(rng, kind_counts, tier):
            "conds": [G.show(c) for c in conds], "assumptions": [G.show(a) for a in assumptions]}
     has_div = any(G.has_nonconst_div(c if entry == "expr" else ("-", c[1], c[2])) for c in conds)
     npts = 3 if tier == "quick" else 4
-    points = [small_point(rng, fluents, conds + assumptions) for _ in range(npts)]
-    # the input must be defined somewhere on the solution set of its equalities (else sympy meets 0/0)
-    ok_somewhere = False
-    for p in points:
-        try:
-            for t in trees:
-                G.ev(t, dict(p))
-            ok_somewhere = True
-            break
-        except ZeroDivisionError:
-            continue
-    if not ok_somewhere:
+    # a disjunction has no solution set to stay on; everything else is judged at points that satisfy its linear equalities
+    eqs_for_points = [] if entry == "or" else conds + assumptions
+    points = [small_point(rng, fluents, eqs_for_points) for _ in range(npts)]
+    # the input must be defined somewhere on the solution set of its equalities: a divisor that an equality of the set forces
+    # to zero (x = -50 x next to 1 / x) is outside the property (rational expressions are compared where they are
+    # defined), and sympy meets 0/0 there
+    if not defined_somewhere(rng, trees, fluents, eqs_for_points, points):
         return None
     if entry == "expr" and has_div:
         points = []
@@ -367,6 +471,19 @@ def build_inputs(rng, tier):
         for entry, d in (("pre", rng.choice([0, 1, 2, 3, 4])), ("print", rng.choice([2, 4, 6]))):
             inputs.append({"job": {"op": "c13.run", "entry": entry, "digits": d, "conds": conds, "assumptions": []},
                            "points": [], "kind": "fixture:%s:%s" % (st["file"], st["action"]), "nontrivial": True, "fluents": None})
+    # the same domains through their OWN precondition objects: Precondition.print(should_simplify=True) on every and / or node
+    # that has numeric conditions (the implementation has already run: these inputs come with their results)
+    pre_done = []
+    cycles = [[0, 1, 2, 4]] if tier == "quick" else [[0, 1, 2, 3, 4, 6], [1, 0, 4, 6, 5, 2]]
+    nodes_seen = 0
+    for cyc in cycles:
+        fxn = run_impl([{"op": "c13.fixture_nodes", "digits": cyc}], nproc=1)[0]
+        for nd in fxn.get("nodes", []):
+            nodes_seen += 1
+            job = {"op": "c13.run", "entry": nd["entry"], "digits": nd["digits"], "conds": nd["conds"], "assumptions": []}
+            pre_done.append(({"job": job, "points": text_points(rng, tier, nd["conds"], nd["entry"] == "or"),
+                              "kind": "fixture-node:%s:%s" % (nd["file"], nd["action"]), "nontrivial": True, "fluents": None}, nd))
+    kinds["fixture-nodes"] = nodes_seen
     n = len(inputs) + (340 if tier == "quick" else 3000)
     tries = 0
     while len(inputs) < n and tries < 20 * n:
@@ -374,7 +491,46 @@ def build_inputs(rng, tier):
         j = make_job(rng, kinds, tier)
         if j:
             inputs.append(j)
-    return inputs, kinds
+    return inputs, kinds, pre_done
+
+
+def parse_tree(text):
+    """PDDL prefix text -> generator tree (num / fl / binary op); None when the text has another shape"""
+    toks = text.replace("(", " ( ").replace(")", " ) ").split()
+    pos = [0]
+
+    def rd():
+        t = toks[pos[0]]
+        pos[0] += 1
+        if t != "(":
+            return t
+        l = []
+        while toks[pos[0]] != ")":
+            l.append(rd())
+        pos[0] += 1
+        return l
+
+    def conv(e):
+        if isinstance(e, str):
+            Fraction(e)
+            return ("num", e)
+        if e and e[0] in G.ARITH + G.CMPS and len(e) == 3 and not (isinstance(e[1], str) and e[1].startswith("?")):
+            return (e[0], conv(e[1]), conv(e[2]))
+        if e and isinstance(e[0], str) and all(isinstance(x, str) for x in e):
+            return ("fl", "(" + " ".join(e) + ")")
+        raise ValueError(text)
+    try:
+        return conv(rd())
+    except Exception:  # noqa
+        return None
+
+
+def text_points(rng, tier, cond_texts, as_or):
+    conds = [parse_tree(c) for c in cond_texts]
+    if any(c is None or c[0] not in G.CMPS for c in conds):
+        return []
+    fl, pts = group_points(rng, tier, conds, as_or)
+    return [[[k, str(v)] for k, v in p] for p in pts] if fl else []
 
 
 def fluents_in_texts(texts):
@@ -393,6 +549,10 @@ def run(args):
     rep = Report(PROP, args.tier, args.seed, level="translation_validation")
     standard_proof_part(rep, PROP)
     rng = random.Random(args.seed * 104729 + 13)
+    global G_DEFAULT_DIGITS
+    facts = run_impl([{"op": "c13.facts"}], nproc=1)[0]
+    if isinstance(facts.get("pre_default_digits"), int):
+        G_DEFAULT_DIGITS = facts["pre_default_digits"]
     if args.replay:
         data = json.load(open(args.replay))
         src = data["input"]
@@ -402,20 +562,36 @@ def run(args):
         else:
             inputs = []
         replay_glue = src.get("glue")
-        kinds = {}
+        kinds, pre_done = {}, []
     else:
-        inputs, kinds = build_inputs(rng, args.tier)
+        inputs, kinds, pre_done = build_inputs(rng, args.tier)
         replay_glue = None
     t0 = time.time()
-    facts = run_impl([{"op": "c13.facts"}], nproc=1)[0]
     results = run_impl([i["job"] for i in inputs], hashseed=args.seed % 3)
     t_impl = time.time() - t0
+    inputs = inputs + [i for i, _ in pre_done]
+    results = list(results) + [r for _, r in pre_done]
     cases, seen_glue = [], set()
     n_glue = n_trans = 0
     for inp, res in zip(inputs, results):
-        pts = [[(k, Fraction(v)) for k, v in p] for p in inp["points"]]
         slim = {k: v for k, v in res.items() if k != "glue"}
-        cases.append({"lit": e2e_lit(inp["job"], res, pts),
+        if inp["job"]["entry"] == "nested" and "groups" in res:
+            # one case per printed group (top-level conjunction, nested disjunction, quantified body)
+            for g in res["groups"]:
+                gjob = {"op": "c13.run", "entry": g["entry"], "digits": g["digits"], "conds": g["conds"], "assumptions": []}
+                gp = inp.get("group_points", {}).get(g["name"], [])
+                pts = [[(k, Fraction(v)) for k, v in p] for p in gp]
+                cases.append({"lit": e2e_lit(gjob, g, pts),
+                              "input": {"job": inp["job"], "group": g["name"], "group_job": gjob, "points": gp, "kind": inp["kind"],
+                                        "implementation": {k: v for k, v in g.items()}, "printed": res.get("printed")},
+                              "nontrivial": True, "witness_of": None, "klass": None, "what": "e2e"})
+            continue
+        job = inp["job"]
+        if job["entry"] == "nested":
+            # the library raised (or printed another structure): judged as a failed print of the top-level conjunction
+            job = {"op": "c13.run", "entry": "print", "digits": job["digits"], "conds": job["groups"]["top"], "assumptions": []}
+        pts = [[(k, Fraction(v)) for k, v in p] for p in inp["points"]]
+        cases.append({"lit": e2e_lit(job, res, pts),
                       "input": {"job": inp["job"], "points": inp["points"], "kind": inp["kind"], "implementation": slim},
                       "nontrivial": inp["nontrivial"], "witness_of": inp.get("witness_of"),
                       "klass": classify(inp, res), "what": "e2e"})
@@ -447,6 +623,7 @@ def run(args):
            header_extra="From Coq Require Import QArith.\nFrom Verif Require Import Model.SymbolicGlue Spec.Poly.\n")
     facts_ok = (facts.get("float_fmt") == ["0.12", "2.68", "-0.00", "2", "0.12", "-0.001"]
                 and facts.get("float_str") == ["0.125000000000000", "2.67500000000000", "1234.56789000000", "1.00000000000000e-5"]
+                and isinstance(facts.get("pre_default_digits"), int) and 0 <= facts["pre_default_digits"] <= 6
                 and facts.get("strip_regex") == r"[\(\-\)\s\?]"
                 and facts.get("fluent_regex") == r"(\([^\W\d][\w-]*\s[?\w\-\s]*\))")
     if not facts_ok:
@@ -466,7 +643,7 @@ def run(args):
         if c["what"] != "e2e":
             continue
         by_path[names.get(pth, pth)] = by_path.get(names.get(pth, pth), 0) + 1
-        ent = c["input"]["job"]["entry"]
+        ent = c["input"]["job"]["entry"] + ("/" + c["input"]["group"] if "group" in c["input"] else "")
         by_entry.setdefault(ent, {})
         by_entry[ent][pth] = by_entry[ent].get(pth, 0) + 1
     cov["validated_by"] = by_path
@@ -474,11 +651,14 @@ def run(args):
     cov["validated_by_digits"] = {}
     for (c, v), pth in zip(zip(cases, verdicts), paths):
         if c["what"] == "e2e":
-            dd = cov["validated_by_digits"].setdefault(str(c["input"]["job"]["digits"]), {})
+            dd = cov["validated_by_digits"].setdefault(str(c["input"].get("group_job", c["input"]["job"])["digits"]), {})
             dd[pth] = dd.get(pth, 0) + 1
     cov["fixtures"] = kinds.pop("fixture-files/parsed-domains/sets", None)
+    cov["fixture_nodes"] = kinds.pop("fixture-nodes", None)
     cov["input_distribution"] = {"%s/%s" % k: v for k, v in sorted(kinds.items())}
     cov["input_distribution"]["fixture"] = sum(1 for i in inputs if i["kind"].startswith("fixture:"))
+    cov["input_distribution"]["fixture-node"] = sum(1 for i in inputs if i["kind"].startswith("fixture-node:"))
+    cov["input_distribution"]["corpus-file"] = sum(1 for i in inputs if i["kind"].startswith("corpus-file:"))
     cov["digits"] = {str(d): sum(1 for i in inputs if i["job"]["digits"] == d) for d in range(0, 7)}
     cov["outcomes"] = {"returned": sum(1 for r in results if "ok" in r), "raised": sum(1 for r in results if "ok" not in r),
                        "reader_rejected": sum(1 for r in results if "ok" in r and not r.get("reader_ok"))}
